@@ -81,12 +81,14 @@ HERE = os.path.dirname(os.path.abspath(__file__))
 FALLBACK = os.path.join(HERE, 'gen_fallback.json')
 
 TEXT, TEXTS, BOOL, OPT, ENC, CAND, FILES, COMPILED, PAIRCE, EXTS, CHARS, CHAR, RESP, ACC, ERASED, SELF, REQ, NONE, \
-    PAIR2, UNIT = ('text', 'texts', 'bool', 'opt', 'enc', 'cand', 'files', 'compiled', 'pairce', 'exts', 'chars',
-                   'char', 'resp', 'acc', 'erased', 'self', 'request', 'none', 'pair2', 'unit')
+    PAIR2, UNIT, ENCMAP, PAIRTT = ('text', 'texts', 'bool', 'opt', 'enc', 'cand', 'files', 'compiled', 'pairce', 'exts',
+                                   'chars', 'char', 'resp', 'acc', 'erased', 'self', 'request', 'none', 'pair2', 'unit',
+                                   'encmap', 'pairtt')
 COQTY = {TEXT: 'text', TEXTS: 'list text', BOOL: 'bool', OPT: 'option text', ENC: 'option text', CAND: 'cand',
          FILES: 'list cand', COMPILED: 'list (text * list text)', PAIRCE: 'text * list text', EXTS: 'list text',
-         CHARS: 'list N', CHAR: 'N', RESP: 'resp', ACC: 'accset', PAIR2: 'option text * option text', UNIT: 'unit'}
-ELEM = {FILES: CAND, COMPILED: PAIRCE, EXTS: TEXT, CHARS: CHAR, TEXTS: TEXT}
+         CHARS: 'list N', CHAR: 'N', RESP: 'resp', ACC: 'accset', PAIR2: 'option text * option text', UNIT: 'unit',
+         ENCMAP: 'list (text * text)', PAIRTT: 'text * text'}
+ELEM = {FILES: CAND, COMPILED: PAIRCE, EXTS: TEXT, CHARS: CHAR, TEXTS: TEXT, ENCMAP: PAIRTT}
 
 
 class Problem(Exception):
@@ -392,6 +394,11 @@ FUNCS = [
     dict(qual='static_view.find_resource_path', gen='gen_find_resource_path', monadic=True, ret=OPT,
          params=[(None, SELF), ('name', TEXT)], sig='(c : config) (fs : fsys) (name : text) : E (option text)',
          fall='None'),
+    dict(qual='static_view.add_slash_redirect', gen='gen_add_slash_redirect', monadic=True, ret=RESP,
+         params=[(None, SELF), (None, REQ)], sig='(c : config) (rq : request) (pi : text) : E resp', fall=None),
+    dict(qual='_compile_content_encodings', gen='gen_compile_content_encodings', monadic=False, ret=COMPILED,
+         params=[('encodings', TEXTS)],
+         sig='(encmap : list (text * text)) (encodings : list text) : list (text * list text)', fall=None),
     dict(qual='static_view.get_resource_name', gen='gen_get_resource_name', monadic=True, ret=TEXT,
          params=[(None, SELF), (None, REQ)],
          sig='(c : config) (rq : request) (pi : text) (fs : fsys) (use_subpath : bool) (sub : list text) : E text',
@@ -509,6 +516,11 @@ class Fn:
             return self.for_(s, env, k, loop)
         if isinstance(s, ast.Assign):
             return self.assign(s, env, k)
+        if isinstance(s, ast.AugAssign) and isinstance(s.op, ast.Add) and isinstance(s.target, ast.Name):
+            # x += e  is  x = x + e  (str concatenation; anything else is refused by the + rule)
+            return self.assign(ast.Assign(targets=[ast.Name(id=s.target.id, ctx=ast.Store())],
+                                          value=ast.BinOp(left=ast.Name(id=s.target.id, ctx=ast.Load()), op=ast.Add(),
+                                                          right=s.value)), env, k)
         if isinstance(s, ast.Expr):
             return self.expr_stmt(s, env, k)
         raise Problem('statement outside the subset: %s' % u(s).split('\n')[0])
@@ -636,6 +648,21 @@ class Fn:
                     and c.args[0].value is None:
                 env2[name] = Val(A('acc_add_none', v.term), ACC)
                 return k(env2)
+        # d.setdefault(k, []).append(v) on the dict encoding -> [extensions] (insertion ordered)
+        if isinstance(c, ast.Call) and isinstance(c.func, ast.Attribute) and c.func.attr == 'append' and len(c.args) == 1 \
+                and not c.keywords and isinstance(c.func.value, ast.Call) and isinstance(c.func.value.func, ast.Attribute) \
+                and c.func.value.func.attr == 'setdefault' and isinstance(c.func.value.func.value, ast.Name) \
+                and c.func.value.func.value.id in env and env[c.func.value.func.value.id].ty == COMPILED \
+                and len(c.func.value.args) == 2 and not c.func.value.keywords \
+                and isinstance(c.func.value.args[1], ast.List) and not c.func.value.args[1].elts:
+            name = c.func.value.func.value.id
+            bk, kv = self.expr(c.func.value.args[0], env)
+            bv, vv = self.expr(c.args[0], env)
+            if bk or bv or kv.ty != TEXT or vv.ty != TEXT:
+                raise Problem('setdefault(%s, []).append(%s)' % (kv.ty, vv.ty))
+            env2 = dict(env)
+            env2[name] = Val(A('compile_add', env[name].term, kv.term, vv.term), COMPILED)
+            return k(env2)
         if isinstance(c, ast.Call) and isinstance(c.func, ast.Name) and c.func.id == '_add_vary' and len(c.args) == 2 \
                 and isinstance(c.args[0], ast.Name) and c.args[0].id in env and env[c.args[0].id].ty == RESP \
                 and isinstance(c.args[1], ast.Constant) and c.args[1].value == 'Accept-Encoding':
@@ -724,6 +751,8 @@ class Fn:
                 tys = (TEXT, ENC)
             elif elem_ty == PAIRCE:
                 tys = (TEXT, EXTS)
+            elif elem_ty == PAIRTT:
+                tys = (TEXT, TEXT)
             else:
                 raise Problem('pair pattern over %s' % elem_ty)
             env_b[s.target.elts[0].id] = Val(A('fst', K(x)), tys[0])
@@ -739,6 +768,13 @@ class Fn:
             elif isinstance(n, ast.Expr) and isinstance(n.value, ast.Call) and isinstance(n.value.func, ast.Attribute) \
                     and isinstance(n.value.func.value, ast.Name) and n.value.func.attr in ('append', 'sort', 'add'):
                 nm = n.value.func.value.id
+            elif isinstance(n, ast.Expr) and isinstance(n.value, ast.Call) and isinstance(n.value.func, ast.Attribute) \
+                    and n.value.func.attr == 'append' and isinstance(n.value.func.value, ast.Call) \
+                    and isinstance(n.value.func.value.func, ast.Attribute) and n.value.func.value.func.attr == 'setdefault' \
+                    and isinstance(n.value.func.value.func.value, ast.Name):
+                nm = n.value.func.value.func.value.id
+            elif isinstance(n, ast.AugAssign) and isinstance(n.target, ast.Name):
+                nm = n.target.id
             if nm and nm not in assigned:
                 assigned.append(nm)
         for nm in assigned:
@@ -782,6 +818,8 @@ class Fn:
             b, p = self.bexpr(node.operand, env)
             return b, ('not', p)
         binds, v = self.expr(node, env, want_bool=True)
+        if v.ty == TEXT:                   # truth value of a str: it is not empty
+            return binds, ('atom', A('nonempty_text', v.term))
         if v.ty != BOOL:
             raise Problem('truth value of a %s is not in the table: %s' % (v.ty, u(node)))
         return binds, ('atom', v.term)
@@ -809,6 +847,8 @@ class Fn:
             raise Problem('name %s is not in the table' % node.id)
         if isinstance(node, ast.List) and not node.elts:
             return [], Val(K('(@nil cand)'), FILES)
+        if isinstance(node, ast.Dict) and not node.keys:
+            return [], Val(K('(@nil (text * list text))'), COMPILED)
         if isinstance(node, ast.Tuple) and len(node.elts) == 2:
             b1, v1 = self.expr(node.elts[0], env)
             b2, v2 = self.expr(node.elts[1], env)
@@ -838,6 +878,8 @@ class Fn:
             b2, v2 = self.expr(r, env)
             if v1.ty == CHAR and v2.ty == TEXT:
                 t = A('memN', v1.term, v2.term)
+            elif v1.ty == TEXT and v2.ty == TEXTS:
+                t = A('mem_text', v1.term, v2.term)
             elif v1.ty in (ENC, NONE, OPT) and v2.ty == ACC:
                 t = A('acc_mem', self.as_opt(v1), v2.term)
             else:
@@ -867,6 +909,8 @@ class Fn:
                 return [], Val(term, ty)
         if self.is_req_attr(node, 'subpath'):
             return [], Val(K('sub'), TEXTS)
+        if self.is_req_attr(node, 'query_string'):
+            return [], Val(A('r_qs', K('rq')), TEXT)
         if self.is_req_attr(node, 'accept_encoding'):
             return [], Val(A('r_ae', K('rq')), BOOL)
         if self.is_req_attr(node, 'path_url') or self.is_req_attr(node, 'url'):
@@ -919,8 +963,8 @@ class Fn:
             if isinstance(f.value, ast.Name) and f.value.id == self.self_name:
                 m = f.attr
                 if m == 'add_slash_redirect' and len(args) == 1 and isinstance(args[0], ast.Name) and args[0].id == self.req_name:
-                    b = self.fresh('url')
-                    return [(b, A('p_path_url', K('c'), K('pi')))], Val(A('redirect', K('rq'), K(b)), RESP)
+                    b = self.fresh('redirect')
+                    return [(b, A('gen_add_slash_redirect', K('c'), K('rq'), K('pi')))], Val(K(b), RESP)
                 if m == 'find_resource_path' and len(args) == 1:
                     b0, v0 = self.expr(args[0], env)
                     if v0.ty != TEXT:
@@ -950,6 +994,10 @@ class Fn:
                     raise Problem('filemap key of type %s' % v0.ty)
                 fm = self.fresh('fm')
                 return b0 + [(fm, K('get_fm'))], Val(A('fm_get', K(fm), v0.term), 'optfiles')
+            if f.attr == 'items' and not args and isinstance(f.value, ast.Attribute) and f.value.attr == 'encodings_map' \
+                    and isinstance(f.value.value, ast.Name) and f.value.value.id == 'mimetypes' and 'mimetypes' not in env:
+                self.module.check_plain_import('mimetypes')
+                return [], Val(K('encmap'), ENCMAP)
             if f.attr == 'items' and self.is_self_attr(f.value, 'content_encodings') and not args:
                 self.module.check_init_binding('content_encodings')
                 return [], Val(A('compile_encodings', A('c_encs', K('c')), A('c_encmap', K('c'))), COMPILED)
@@ -1056,6 +1104,12 @@ class Fn:
             self.global_is(name, 'pyramid.traversal')
             b = self.fresh('tuple')
             return [(b, A('p_view_tuple', K('pi')))], Val(K(b), TEXTS)
+        if name == 'HTTPMovedPermanently' and len(args) == 1:
+            self.global_is(name, 'pyramid.httpexceptions')
+            b1, v1 = self.expr(args[0], env)
+            if v1.ty != TEXT:
+                raise Problem('HTTPMovedPermanently of a %s' % v1.ty)
+            return b1, Val(A('R301', v1.term), RESP)
         if name == 'FileResponse' and len(args) == 5:
             self.global_is(name, 'pyramid.response')
             ok = isinstance(args[1], ast.Name) and args[1].id == self.req_name and self.is_self_attr(args[2], 'cache_max_age') \
@@ -1099,12 +1153,17 @@ class Module:
         with open(self.path) as f:
             self.tree = ast.parse(f.read())
         self.imports = {}
+        self.plain_imports = {}
         self.defs = {}
         self.assigned = {}
         for n in self.tree.body:
             if isinstance(n, ast.ImportFrom):
                 for a in n.names:
                     self.imports[a.asname or a.name] = (n.module, a.name)
+            elif isinstance(n, ast.Import):
+                for a in n.names:
+                    nm = a.asname or a.name.split('.')[0]
+                    self.plain_imports[nm] = self.plain_imports.get(nm, []) + [a.name]
             elif isinstance(n, (ast.FunctionDef, ast.ClassDef)):
                 self.defs[n.name] = self.defs.get(n.name, 0) + 1
             elif isinstance(n, ast.Assign):
@@ -1143,6 +1202,11 @@ class Module:
                 raise Problem('%s is not a module-level def' % name)
         elif self.imports.get(name) != (module, name):
             raise Problem('%s is not imported from %s (found %r)' % (name, module, self.imports.get(name)))
+
+    def check_plain_import(self, name):
+        """name must be bound exactly once at module level, by `import name`"""
+        if self.plain_imports.get(name) != [name] or name in self.imports or name in self.defs or name in self.assigned:
+            raise Problem('%s is not bound exactly once by `import %s`' % (name, name))
 
     def check_translated(self, name):
         if self.defs.get(name) != 1 or name in self.imports or name in self.assigned:
